@@ -241,8 +241,8 @@ class ComplexS(metaclass = Singleton):
             self.__class__.ID += 1
 
         # Private variables:
-        self._sequence = sequence
-        self._structure = structure
+        self._sequence = sequence[:] if isinstance(sequence, list) else sequence
+        self._structure = structure[:] if isinstance(structure, list) else structure
         self._name = name
         self._canon = canon
         self._turns = turns
@@ -570,7 +570,7 @@ class StrandS(ComplexS):
             self.__class__.ID += 1
 
         # Private variables:
-        self._sequence = sequence
+        self._sequence = sequence[:] if isinstance(sequence, list) else sequence
         self._name = name
         self._structure = None
         self._canon = canon
